@@ -110,7 +110,8 @@ var oddNames = []string{"a b", "it's", `q"t`, "st*r", "d$l", "s;c", "a&b", `b\s`
 var dirPool = []string{"/usr/bin", "/usr/lib64", "/usr/share/doc/pkgA", "/opt/app", "/opt/app/sub", "/etc/conf.d",
 	"/var/lib/misc", "/bin", "/usr/share/odd dir", "/srv/www", "/usr/local/share", "/etc/env.d", "/var/cache/x",
 	"/home/u", "/usr/lib64/cache", "/usr/libexec/tmp", "/etc/portage", "/usr/share/st*r", "/lib64", "/etc/xml",
-	"/usr/share/gcc-data/x86_64", "/opt", "/usr/src/linux", "/var/lib/portage", "/usr/share/a -> b"}
+	"/usr/share/gcc-data/x86_64", "/opt", "/usr/src/linux", "/var/lib/portage", "/usr/share/a -> b",
+	"/opt/a*b", "/srv/*", "/opt/a*b"}
 
 func genName(r *rng.R) string {
 	if r.Chance(1, 4) {
@@ -541,6 +542,14 @@ func genScript(r *rng.R, t *tb, extras []extra, likely []string, pkgs []Pkg, in 
 		if d == "/" {
 			d = ""
 		}
+		if strings.Contains(d, "*") && !strings.ContainsAny(d, "?[\\ \t'\"") && !strings.ContainsAny(b, "?[\\ \t'\"") {
+			// a literal asterisk in the directory part is written escaped; the wildcard is in the last element
+			ed := strings.ReplaceAll(d, "*", "\\*")
+			if r.Bool() {
+				return ed + "/*"
+			}
+			return ed + "/" + b[:r.Intn(len(b)+1)] + "*"
+		}
 		if strings.ContainsAny(d, "*?[\\ \t'\"") {
 			return r.Pick(wildDirs) + "/" + r.Pick(pats)
 		}
@@ -562,6 +571,17 @@ func genScript(r *rng.R, t *tb, extras []extra, likely []string, pkgs []Pkg, in 
 				return d + "/" + b[:1] + "*" + b[len(b)-1:]
 			}
 			return d + "/" + b + "*"
+		}
+	}
+	{ // a wildcard omit below a directory whose own name contains an asterisk, whenever there is one
+		var starred []string
+		for _, m := range likely {
+			if strings.Contains(parentOf(m), "*") {
+				starred = append(starred, m)
+			}
+		}
+		if len(starred) > 0 && r.Chance(2, 3) {
+			out = append(out, "omit "+patFor(r.Pick(starred)))
 		}
 	}
 	n := 1 + r.Heavy(6)
@@ -605,6 +625,18 @@ func genScript(r *rng.R, t *tb, extras []extra, likely []string, pkgs []Pkg, in 
 				l = "omit " + quoteName(r, r.Pick(members))
 			}
 		case x < 34: // wildcard omit
+			if r.Chance(1, 3) { // below a directory whose own name contains an asterisk
+				var starred []string
+				for _, m := range likely {
+					if strings.Contains(parentOf(m), "*") {
+						starred = append(starred, m)
+					}
+				}
+				if len(starred) > 0 {
+					l = "omit " + patFor(r.Pick(starred))
+					break
+				}
+			}
 			if r.Chance(3, 4) {
 				l = "omit " + patFor(r.Pick(members))
 				break
